@@ -7,7 +7,7 @@ from ..cfg import stmt_of
 from ..model import AnalysisError, const_value, dotted, kwarg, norm_text, walk_no_nested
 from ..report import Context
 from .common import arg_or_kw, calls_in, callee, enclosing_ifs, is_none, method_calls
-from .common import path_conditions as _pc09
+from .common import path_conditions as _pc09, _SubstNames as _Subst09
 
 UGRID = 'emsarray.conventions.ugrid'
 TOPO = f"{UGRID}.Mesh2DTopology"
@@ -347,29 +347,68 @@ def run(ctx: Context) -> None:
         m = Matcher(ctx, dl)
         loop = m.stmt('for $key, $sample in $sample_dataset.variables.items():\n    ...')
         ctx.need('R09.10', loop is not None and m.stmt('$new = $like.variables[$key]', within=loop) is not None, "dataset_like copies attributes variable by variable", dl)
-        ups = [c for c in ast.walk(loop) if isinstance(c, ast.Call) and callee(ctx, dl, c) == 'emsarray.utils._update_no_clobber' and len(c.args) == 2
-               and norm_text(c.args[1]) == f"{m.name('new')}.attrs"]
-        ctx.need('R09.10', len(ups) == 1, "one attribute update per variable", dl)
-        src = dflow.resolve(ups[0].args[0])
-        ok, why = False, norm_text(src)[:120]
-        if isinstance(src, ast.DictComp) and len(src.generators) == 1 and len(src.generators[0].ifs) == 1:
-            g = src.generators[0]
-            it = dflow.resolve(g.iter)
-            t = g.ifs[0]
-            if isinstance(it, ast.Call) and isinstance(it.func, ast.Attribute) and it.func.attr == 'items' and norm_text(it.func.value) == f"{m.name('sample')}.attrs" \
-                    and isinstance(g.target, ast.Tuple) and len(g.target.elts) == 2 and norm_text(src.key) == norm_text(g.target.elts[0]) \
-                    and norm_text(src.value) == norm_text(g.target.elts[1]) \
-                    and isinstance(t, ast.Compare) and len(t.ops) == 1 and isinstance(t.ops[0], ast.NotIn) and norm_text(t.left) == norm_text(g.target.elts[0]) \
-                    and norm_text(t.comparators[0]) == f"{m.name('new')}.encoding":
-                ok = True
-        ctx.check('R09.10', ok, "the attributes copied from the input variable leave out every key the new variable holds as an encoding "
-                  "(_FillValue, missing_value, units of a re-decoded work file): xarray refuses to save a variable with the key in both places", dl, ups[0],
-                  construct=f"attribute source: {why}")
-        encs = [c for c in ast.walk(loop) if isinstance(c, ast.Call) and callee(ctx, dl, c) == 'emsarray.utils._update_no_clobber' and len(c.args) == 2
-                and norm_text(c.args[1]) == f"{m.name('new')}.encoding" and norm_text(c.args[0]) == f"{m.name('sample')}.encoding"]
+        from .common import Undecided, item_outcome, simple_aliases
+        import itertools
+        new_, sample_ = m.name('new'), m.name('sample')
+        aliases = simple_aliases(dl)
         nc = ctx.func('emsarray.utils._update_no_clobber')
         mn = Matcher(ctx, nc)
-        ok = len(encs) == 1 and mn.stmt('for $k, $v in $source.items():\n    if $k not in $dest:\n        $dest[$k] = $v') is not None
+        helper_ok = mn.stmt('for $k, $v in $source.items():\n    if $k not in $dest:\n        $dest[$k] = $v') is not None and len(nc.body) == 1
+
+        def spelled(e):
+            return norm_text(_Subst09(aliases).visit(__import__('copy').deepcopy(e)))
+        # one attribute of the input variable at a time: is it stored on the new variable, given whether the new variable
+        # already holds the key as an encoding / as an attribute?  Either the helper fed with a filtered copy, or a loop written out.
+        ups = [c for c in ast.walk(loop) if isinstance(c, ast.Call) and callee(ctx, dl, c) == 'emsarray.utils._update_no_clobber' and len(c.args) == 2
+               and spelled(c.args[1]) == f"{new_}.attrs"]
+        loops = [n for n in ast.walk(loop) if isinstance(n, ast.For) and n is not loop and isinstance(n.iter, ast.Call) and isinstance(n.iter.func, ast.Attribute)
+                 and n.iter.func.attr == 'items' and spelled(n.iter.func.value) == f"{sample_}.attrs"]
+        ctx.need('R09.10', len(ups) + len(loops) == 1, "one attribute update per variable", dl)
+        site = (ups + loops)[0]
+        table, why = {}, '?'
+        try:
+            for enc, att in itertools.product((True, False), repeat=2):
+                if ups:
+                    src = dflow.resolve(ups[0].args[0])
+                    if isinstance(src, ast.DictComp) and len(src.generators) == 1:
+                        g = src.generators[0]
+                        it = dflow.resolve(g.iter)
+                        if not (isinstance(it, ast.Call) and isinstance(it.func, ast.Attribute) and it.func.attr == 'items' and spelled(it.func.value) == f"{sample_}.attrs"
+                                and isinstance(g.target, ast.Tuple) and len(g.target.elts) == 2 and all(isinstance(e_, ast.Name) for e_ in g.target.elts) and helper_ok):
+                            raise Undecided('the source of the update')
+                        k_, v_ = g.target.elts[0].id, g.target.elts[1].id
+                        out = item_outcome(src, {f"{k_} in {new_}.encoding": enc}, env=aliases)
+                        out = [(k, norm_text(v)) for _, k, v in out]
+                        table[(enc, att)] = bool(out) and out == [(k_, v_)] and not att
+                        if out and out != [(k_, v_)]:
+                            raise Undecided(f"entry {out}")
+                    elif spelled(src) == f"{sample_}.attrs" and helper_ok:
+                        table[(enc, att)] = not att
+                    else:
+                        raise Undecided('the source of the update')
+                else:
+                    lp = loops[0]
+                    if not (isinstance(lp.target, ast.Tuple) and len(lp.target.elts) == 2 and all(isinstance(e_, ast.Name) for e_ in lp.target.elts) and not lp.orelse):
+                        raise Undecided('the loop target')
+                    k_, v_ = lp.target.elts[0].id, lp.target.elts[1].id
+                    out = item_outcome(lp.body, {f"{k_} in {new_}.encoding": enc, f"{k_} in {new_}.attrs": att}, env=aliases)
+                    out = [(m_, k, norm_text(v)) for m_, k, v in out]
+                    if out and out != [(f"{new_}.attrs", k_, v_)]:
+                        raise Undecided(f"store {out}")
+                    table[(enc, att)] = bool(out)
+            why = ', '.join(f"{'encoded' if e else 'not encoded'}/{'present' if a_ else 'absent'}: {'copied' if t else 'left'}" for (e, a_), t in sorted(table.items()))
+        except Undecided as exc:
+            table, why = None, f"not understood: {exc}"
+        ok = table is not None and not table[(True, True)] and not table[(True, False)]
+        ctx.check('R09.10', ok, "the attributes copied from the input variable leave out every key the new variable holds as an encoding "
+                  "(_FillValue, missing_value, units of a re-decoded work file): xarray refuses to save a variable with the key in both places", dl, site,
+                  construct=f"attribute of the input variable: {why}")
+        ok = table is not None and table[(False, False)] and not table[(False, True)]
+        ctx.check('R09.10', ok, "every other attribute of the input variable is copied, without replacing an attribute the new variable already has", dl, site,
+                  construct=f"attribute of the input variable: {why}")
+        encs = [c for c in ast.walk(loop) if isinstance(c, ast.Call) and callee(ctx, dl, c) == 'emsarray.utils._update_no_clobber' and len(c.args) == 2
+                and spelled(c.args[1]) == f"{new_}.encoding" and spelled(c.args[0]) == f"{sample_}.encoding"]
+        ok = len(encs) == 1 and helper_ok
         ctx.check('R09.10', ok, "encodings are copied from the input variable without replacing what the new variable already has", dl, encs[0] if encs else loop)
 
 
